@@ -173,10 +173,19 @@ CHECKS = {
             "slice: real builds with native_parser off/on, columns and ends shown; identical diagnostics at two strengths, "
             "blocker iff blocker, and every position of either parser inside the file.",
             "fixture stubs; targets 3.10-3.14 (the tree rejects 3.9); syntax newer than the running interpreter excluded", "4/C14"),
+    "C20": ("exploration",
+            "exhaustive single-mutation neighbourhood of corpus programs, batch and daemon lanes",
+            "For every corpus program of the slice (Q: 8 seed-selected check-*.test files up to 800 mutants each; T: all "
+            "9583 programs of check-*, semanal-*, fine-grained*) EVERY delete / duplicate / swap-with-next of each "
+            "top-level or class-level statement (T: also renames, type-expression swaps, truncations, mutual references, "
+            "pairs of mutations) is run through the real mypy.main.main with the bundled typeshed (fresh child, warm "
+            "stdlib cache copy) and as original -> mutant -> original edits through a real dmypy Server: exit status in "
+            "{0,1,2}, no INTERNAL ERROR / traceback / malformed line / hang, daemon alive and answering the original "
+            "program as before. Every witness is re-run through the real `python -m mypy` / dmypy before it is reported.",
+            "crash-site signatures (exception type + innermost mypy frame) may merge distinct causes at one assertion", "4/C20"),
 }
 
-NOT_BUILT = {"C20": "check built (mc/checks/c20.py) but its genuine findings on the unchanged tree are still being collected by a "
-                    "thorough run; it is registered once every signature is recorded in known_findings.jsonl"}
+NOT_BUILT = {}
 
 
 def main() -> None:
